@@ -35,9 +35,10 @@ Definition target_paths (g : graph) (t p : path) : Prop :=
 Definition target_scope (g : graph) (ts : list path) (p : path) : Prop :=
   exists t, In t ts /\ node_exists g t = true /\ target_paths g t p.
 
-(* scope of `-t clean -r rules`: statements whose rule name is one of the KNOWN named rules *)
+(* scope of `-t clean -r rules`: non-phony statements whose rule name is one of the KNOWN named rules *)
 Definition rule_scope (g : graph) (rs : list N) (p : path) : Prop :=
-  exists r e, In r rs /\ In r (g_rules g) /\ In e (g_edges g) /\ e_rule e = r /\ e_outs e <> [] /\ In p (edge_paths e).
+  exists r e, In r rs /\ In r (g_rules g) /\ In e (g_edges g) /\ e_phony e = false /\ e_rule e = r /\
+              e_outs e <> [] /\ In p (edge_paths e).
 
 (* scope of `-t cleandead`: log entries without node, or whose node has neither producer nor consumer *)
 Definition dead_scope (g : graph) (entries : list path) (p : path) : Prop :=
@@ -63,11 +64,6 @@ Definition is_phony_output (g : graph) (p : path) : Prop :=
   exists e, In e (g_edges g) /\ e_phony e = true /\ In p (e_outs e).
 Definition is_generator_output (g : graph) (p : path) : Prop :=
   exists e, In e (g_edges g) /\ e_generator e = true /\ In p (e_outs e).
-
-(* acyclicity by a ranking of the nodes: every input ranks below the outputs of its consumer *)
-Definition ranked (g : graph) (rank : path -> nat) : Prop :=
-  forall n e i, in_edge g n = Some e -> In i (e_ins e) -> rank i < rank n.
-Definition acyclic (g : graph) : Prop := exists rank, ranked g rank.
 
 (* ================================================================================================ *)
 (** * 1. The invariant of Remove() *)
@@ -283,11 +279,13 @@ Qed.
 
 (* ---- CleanRules ------------------------------------------------------------------------------ *)
 Definition rule_edge_paths (r : N) (e : edge) : list path :=
-  if N.eqb (e_rule e) r then flat_map (fun o => o :: aux_paths e) (e_outs e) else [].
+  if e_phony e then []
+  else if N.eqb (e_rule e) r then flat_map (fun o => o :: aux_paths e) (e_outs e) else [].
 
 Lemma adds_clean_rule_edge dry r s e : adds dry (rule_edge_paths r e) s (clean_rule_edge dry r s e).
 Proof.
-  unfold clean_rule_edge, rule_edge_paths. destruct (N.eqb (e_rule e) r); [|apply adds_refl].
+  unfold clean_rule_edge, rule_edge_paths. destruct (e_phony e); [apply adds_refl|].
+  destruct (N.eqb (e_rule e) r); [|apply adds_refl].
   apply (adds_fold dry (fun o => o :: aux_paths e)). intros s0 o.
   change (o :: aux_paths e) with ([o] ++ aux_paths e).
   eapply adds_trans; [apply adds_remove | apply adds_remove_edge_files].
@@ -314,16 +312,18 @@ Proof.
 Qed.
 
 Lemma rule_edge_paths_In r e p :
-  In p (rule_edge_paths r e) <-> e_rule e = r /\ e_outs e <> [] /\ In p (edge_paths e).
+  In p (rule_edge_paths r e) <-> e_phony e = false /\ e_rule e = r /\ e_outs e <> [] /\ In p (edge_paths e).
 Proof.
-  unfold rule_edge_paths, edge_paths. destruct (N.eqb_spec (e_rule e) r) as [Heq|Hne].
+  unfold rule_edge_paths, edge_paths. destruct (e_phony e); [split; [intros [] | intros [H _]; discriminate]|].
+  destruct (N.eqb_spec (e_rule e) r) as [Heq|Hne].
   - rewrite in_flat_map, in_app_iff. split.
-    + intros [o [Ho Hp]]. split; [exact Heq|]. split; [intro H0; rewrite H0 in Ho; destruct Ho|].
+    + intros [o [Ho Hp]]. split; [reflexivity|]. split; [exact Heq|].
+      split; [intro H0; rewrite H0 in Ho; destruct Ho|].
       destruct Hp as [<-|Hp]; auto.
-    + intros [_ [Hne [Hp|Hp]]].
+    + intros [_ [_ [Hne [Hp|Hp]]]].
       * exists p. split; [exact Hp | left; reflexivity].
       * destruct (e_outs e) as [|o os]; [congruence|]. exists o. split; [left; reflexivity | right; exact Hp].
-  - split; [intros [] | intros [H _]; congruence].
+  - split; [intros [] | intros [_ [H _]]; congruence].
 Qed.
 
 Lemma rule_paths_scope g rs p : In p (flat_map (rule_paths g) rs) <-> rule_scope g rs p.
@@ -331,8 +331,8 @@ Proof.
   rewrite in_flat_map. unfold rule_scope, rule_paths. split.
   - intros [r [Hr Hp]]. destruct (mem_N r (g_rules g)) eqn:Hm; [|destruct Hp].
     apply mem_N_In in Hm. apply in_flat_map in Hp. destruct Hp as [e [He Hp]].
-    apply rule_edge_paths_In in Hp. destruct Hp as [H1 [H2 H3]]. exists r, e. auto 7.
-  - intros [r [e [Hr [Hk [He [H1 [H2 H3]]]]]]]. exists r. split; [exact Hr|].
+    apply rule_edge_paths_In in Hp. destruct Hp as [H0 [H1 [H2 H3]]]. exists r, e. auto 8.
+  - intros [r [e [Hr [Hk [He [H0 [H1 [H2 H3]]]]]]]]. exists r. split; [exact Hr|].
     apply mem_N_In in Hk. rewrite Hk. apply in_flat_map. exists e. split; [exact He|].
     apply rule_edge_paths_In. auto.
 Qed.
@@ -363,7 +363,7 @@ Proof.
 Qed.
 
 (* ================================================================================================ *)
-(** * 3. DoCleanTarget: the depth-first walk *)
+(** * 3. DoCleanTarget: the depth-first walk (node marked on entry) *)
 
 Lemma mark_cleaned_In n s x : In x (c_cleaned (mark_cleaned n s)) <-> x = n \/ In x (c_cleaned s).
 Proof.
@@ -390,23 +390,57 @@ Proof.
   intros He Hi [m [e' [Hr H]]]. exists m, e'. split; [eapply reach_step; eauto | exact H].
 Qed.
 
-(* post-order invariant of cleaned_: a finished node has had everything below it attempted *)
+(* a visited node is finished ("black") when its statement has been attempted and all its direct
+   inputs are visited; nodes on the recursion stack G ("gray") are exempt *)
+Definition local_ok (g : graph) (s : cl) (n : path) : Prop :=
+  forall e, in_edge g n = Some e ->
+    (e_phony e = false -> incl (edge_paths e) (c_removed s)) /\
+    (forall i, In i (e_ins e) -> In i (c_cleaned s)).
+
+Definition dfs_inv (g : graph) (G : list path) (s : cl) : Prop :=
+  forall n, In n (c_cleaned s) -> In n G \/ local_ok g s n.
+
+Lemma local_ok_mono g s s' n :
+  incl (c_removed s) (c_removed s') -> incl (c_cleaned s) (c_cleaned s') -> local_ok g s n -> local_ok g s' n.
+Proof.
+  intros Hr Hc H e He. destruct (H e He) as [H1 H2]. split.
+  - intros Hph q Hq. apply Hr. exact (H1 Hph q Hq).
+  - intros i Hi. apply Hc. exact (H2 i Hi).
+Qed.
+
+(* with an empty stack the visited set is closed under "input of", and everything below a visited
+   node has been attempted *)
+Lemma dfs_inv_reach g s n m : dfs_inv g [] s -> In n (c_cleaned s) -> reach g n m -> In m (c_cleaned s).
+Proof.
+  intros Hinv Hn Hr. induction Hr as [n|n e i m He Hi _ IH]; [exact Hn|].
+  apply IH. destruct (Hinv n Hn) as [[]|Hok]. exact (proj2 (Hok e He) i Hi).
+Qed.
+
 Definition closed (g : graph) (s : cl) : Prop :=
   forall n, In n (c_cleaned s) -> forall q, target_paths g n q -> In q (c_removed s).
+
+Lemma dfs_inv_closed g s : dfs_inv g [] s -> closed g s.
+Proof.
+  intros Hinv n Hn q [m [e [Hr [He [Hph Hq]]]]].
+  pose proof (dfs_inv_reach g s n m Hinv Hn Hr) as Hm.
+  destruct (Hinv m Hm) as [[]|Hok]. exact (proj1 (Hok e He) Hph q Hq).
+Qed.
 
 Definition tgt_post (dry : bool) (g : graph) (t : path) (s s' : cl) : Prop :=
   (forall d0, inv dry d0 s -> inv dry d0 s') /\
   incl (c_removed s) (c_removed s') /\
   incl (c_cleaned s) (c_cleaned s') /\
   (forall q, In q (c_removed s') -> In q (c_removed s) \/ target_paths g t q) /\
-  (closed g s -> closed g s' /\ In t (c_cleaned s')).
+  In t (c_cleaned s') /\
+  (forall G, dfs_inv g G s -> dfs_inv g G s').
 
 Definition ins_post (dry : bool) (g : graph) (ins : list path) (s s' : cl) : Prop :=
   (forall d0, inv dry d0 s -> inv dry d0 s') /\
   incl (c_removed s) (c_removed s') /\
   incl (c_cleaned s) (c_cleaned s') /\
   (forall q, In q (c_removed s') -> In q (c_removed s) \/ exists i, In i ins /\ target_paths g i q) /\
-  (closed g s -> closed g s' /\ forall i, In i ins -> In i (c_cleaned s')).
+  (forall i, In i ins -> In i (c_cleaned s')) /\
+  (forall G, dfs_inv g G s -> dfs_inv g G s').
 
 Lemma clean_inputs_post dry g (rec : path -> cl -> option cl) :
   (forall n s s', rec n s = Some s' -> tgt_post dry g n s s') ->
@@ -414,110 +448,103 @@ Lemma clean_inputs_post dry g (rec : path -> cl -> option cl) :
 Proof.
   intros Hrec ins. induction ins as [|n ins IH]; intros s s' H; cbn [clean_inputs] in H.
   - injection H as <-. unfold ins_post. split; [auto|]. split; [apply incl_refl|]. split; [apply incl_refl|].
-    split; [auto|]. intro Hc. split; [exact Hc | intros i []].
+    split; [auto|]. split; [intros i []|auto].
   - destruct (mem_bytes n (c_cleaned s)) eqn:Hm.
-    + apply mem_bytes_In in Hm. apply IH in H. destruct H as [Hi [Hr [Hcl [Hs Hc]]]].
-      split; [exact Hi|]. split; [exact Hr|]. split; [exact Hcl|]. split.
+    + apply mem_bytes_In in Hm. apply IH in H. destruct H as [Hi [Hr [Hcl [Hs [Hall Hd]]]]].
+      split; [exact Hi|]. split; [exact Hr|]. split; [exact Hcl|]. split; [|split; [|exact Hd]].
       * intros q Hq. destruct (Hs q Hq) as [H|[i [Hi' Ht]]]; [left; exact H|].
         right. exists i. split; [right; exact Hi' | exact Ht].
-      * intro Hc0. destruct (Hc Hc0) as [Hc1 Hall]. split; [exact Hc1|].
-        intros i [<-|Hi']; [apply Hcl; exact Hm | apply Hall; exact Hi'].
+      * intros i [<-|Hi']; [apply Hcl; exact Hm | apply Hall; exact Hi'].
     + destruct (rec n s) as [s1|] eqn:Hr1; [|discriminate].
-      apply Hrec in Hr1. destruct Hr1 as [Hi1 [Hr1 [Hcl1 [Hs1 Hc1]]]].
-      apply IH in H. destruct H as [Hi [Hr [Hcl [Hs Hc]]]].
-      split; [auto|]. split; [eapply incl_tran; eauto|]. split; [eapply incl_tran; eauto|]. split.
+      apply Hrec in Hr1. destruct Hr1 as [Hi1 [Hr1 [Hcl1 [Hs1 [Hn1 Hd1]]]]].
+      apply IH in H. destruct H as [Hi [Hr [Hcl [Hs [Hall Hd]]]]].
+      split; [auto|]. split; [eapply incl_tran; eauto|]. split; [eapply incl_tran; eauto|].
+      split; [|split; [|auto]].
       * intros q Hq. destruct (Hs q Hq) as [H|[i [Hi' Ht]]].
         -- destruct (Hs1 q H) as [H'|H']; [left; exact H'|]. right. exists n. split; [left; reflexivity | exact H'].
         -- right. exists i. split; [right; exact Hi' | exact Ht].
-      * intro Hc0. destruct (Hc1 Hc0) as [Hc1' Hn]. destruct (Hc Hc1') as [Hc2 Hall]. split; [exact Hc2|].
-        intros i [<-|Hi']; [apply Hcl; exact Hn | apply Hall; exact Hi'].
+      * intros i [<-|Hi']; [apply Hcl; exact Hn1 | apply Hall; exact Hi'].
 Qed.
-
-Lemma closed_mono_removed g s s' :
-  c_cleaned s' = c_cleaned s -> incl (c_removed s) (c_removed s') -> closed g s -> closed g s'.
-Proof. intros Hc Hr H n Hn q Hq. apply Hr. apply (H n); [rewrite <- Hc; exact Hn | exact Hq]. Qed.
 
 Lemma do_clean_target_post dry g fuel :
   forall t s s', do_clean_target fuel dry g t s = Some s' -> tgt_post dry g t s s'.
 Proof.
   induction fuel as [|f IH]; intros t s s' H; cbn [do_clean_target] in H; [discriminate|].
+  set (s0 := mark_cleaned t s) in H.
+  assert (Ht0 : In t (c_cleaned s0)) by (apply mark_cleaned_In; left; reflexivity).
+  assert (Hc0 : incl (c_cleaned s) (c_cleaned s0)) by (intros x Hx; apply mark_cleaned_In; right; exact Hx).
+  assert (Hd0 : forall G, dfs_inv g G s -> dfs_inv g (t :: G) s0).
+  { intros G HG n Hn. apply mark_cleaned_In in Hn. destruct Hn as [->|Hn]; [left; left; reflexivity|].
+    destruct (HG n Hn) as [Hg|Hok]; [left; right; exact Hg|]. right.
+    apply (local_ok_mono g s s0 n); [apply incl_refl | exact Hc0 | exact Hok]. }
   destruct (in_edge g t) as [e|] eqn:He.
-  - set (s1 := if e_phony e then s else clean_edge dry e s) in H.
-    assert (H1 : adds dry (if e_phony e then [] else edge_paths e) s s1).
+  - set (s1 := if e_phony e then s0 else clean_edge dry e s0) in H.
+    assert (H1 : adds dry (if e_phony e then [] else edge_paths e) s0 s1).
     { unfold s1. destruct (e_phony e); [apply adds_refl | apply adds_clean_edge]. }
     destruct H1 as [H1r [H1c H1i]].
-    destruct (clean_inputs (do_clean_target f dry g) (e_ins e) s1) as [s2|] eqn:H2; [|discriminate].
-    injection H as <-.
-    apply (clean_inputs_post dry g _ IH) in H2. destruct H2 as [Hi [Hr [Hcl [Hs Hc]]]].
+    apply (clean_inputs_post dry g _ IH) in H. destruct H as [Hi [Hr [Hcl [Hs [Hall Hd]]]]].
     assert (Hr1 : incl (c_removed s) (c_removed s1)) by (intros q Hq; apply H1r; right; exact Hq).
-    split; [intros d0 Hd; apply inv_mark_cleaned; auto|].
-    split; [cbn [mark_cleaned c_removed]; eapply incl_tran; eauto|].
-    split; [intros x Hx; apply mark_cleaned_In; right; apply Hcl; rewrite H1c; exact Hx|].
-    split.
-    + cbn [mark_cleaned c_removed]. intros q Hq. destruct (Hs q Hq) as [H|[i [Hi' Ht]]].
+    assert (Hc1 : incl (c_cleaned s) (c_cleaned s1)) by (rewrite H1c; exact Hc0).
+    split; [intros d0 Hinv; apply Hi, H1i, inv_mark_cleaned; exact Hinv|].
+    split; [eapply incl_tran; eauto|]. split; [eapply incl_tran; eauto|].
+    split; [|split].
+    + intros q Hq. destruct (Hs q Hq) as [H|[i [Hi' Ht]]].
       * apply H1r in H. destruct H as [H|H]; [|left; exact H]. right.
         destruct (e_phony e) eqn:Hph; [destruct H|].
         exists t, e. split; [apply reach_refl|]. auto.
       * right. eapply target_paths_step; eauto.
-    + intro Hc0.
-      assert (Hc1 : closed g s1) by (apply (closed_mono_removed g s s1 H1c Hr1 Hc0)).
-      destruct (Hc Hc1) as [Hc2 Hall]. split; [|apply mark_cleaned_In; left; reflexivity].
-      intros n Hn q Hq. cbn [mark_cleaned c_removed]. apply mark_cleaned_In in Hn.
-      destruct Hn as [->|Hn]; [|apply (Hc2 n Hn q Hq)].
-      destruct Hq as [m [e' [Hreach [He' [Hph Hq]]]]].
-      inversion Hreach as [n0 Heq | n0 e0 i m0 He0 Hi0 Hrest]; subst.
-      * rewrite He in He'. injection He' as <-. apply Hr. apply H1r. left. rewrite Hph. exact Hq.
-      * rewrite He in He0. injection He0 as <-. apply (Hc2 i (Hall i Hi0)). exists m, e'. auto.
+    + apply Hcl. rewrite H1c. exact Ht0.
+    + intros G HG.
+      assert (HG1 : dfs_inv g (t :: G) s1).
+      { intros n Hn. rewrite H1c in Hn. destruct (Hd0 G HG n Hn) as [Hg|Hok]; [left; exact Hg|]. right.
+        apply (local_ok_mono g s0 s1 n); [intros q Hq; apply H1r; right; exact Hq | rewrite H1c; apply incl_refl | exact Hok]. }
+      pose proof (Hd (t :: G) HG1) as HG2.
+      intros n Hn. destruct (HG2 n Hn) as [[<-|Hg]|Hok]; [|left; exact Hg|right; exact Hok].
+      right. intros e' He'. rewrite He in He'. injection He' as <-. split.
+      * intros Hph q Hq. apply Hr. apply H1r. left. rewrite Hph. exact Hq.
+      * exact Hall.
   - injection H as <-.
-    split; [intros d0 Hd; apply inv_mark_cleaned; exact Hd|].
-    split; [apply incl_refl|].
-    split; [intros x Hx; apply mark_cleaned_In; right; exact Hx|].
-    split; [intros q Hq; left; exact Hq|].
-    intro Hc0. split; [|apply mark_cleaned_In; left; reflexivity].
-    intros n Hn q Hq. cbn [mark_cleaned c_removed]. apply mark_cleaned_In in Hn.
-    destruct Hn as [->|Hn]; [|apply (Hc0 n Hn q Hq)].
-    destruct Hq as [m [e' [Hreach [He' _]]]].
-    inversion Hreach as [n0 Heq | n0 e0 i m0 He0 Hi0 Hrest]; subst; congruence.
+    split; [intros d0 Hinv; apply inv_mark_cleaned; exact Hinv|].
+    split; [apply incl_refl|]. split; [exact Hc0|].
+    split; [intros q Hq; left; exact Hq|]. split; [exact Ht0|].
+    intros G HG n Hn. destruct (Hd0 G HG n Hn) as [[<-|Hg]|Hok]; [|left; exact Hg|right; exact Hok].
+    right. intros e' He'. congruence.
 Qed.
 
 (* the loop of CleanTargets *)
 Definition loop_post (dry : bool) (g : graph) (ts : list path) (s s' : cl) : Prop :=
   (forall d0, inv dry d0 s -> inv dry d0 s') /\
   incl (c_removed s) (c_removed s') /\
+  incl (c_cleaned s) (c_cleaned s') /\
   (forall q, In q (c_removed s') -> In q (c_removed s) \/ target_scope g ts q) /\
-  (closed g s -> closed g s' /\ forall q, target_scope g ts q -> In q (c_removed s')).
-
-Lemma closed_set_status g s : closed g s -> closed g (set_status s).
-Proof. intros H n Hn q Hq. exact (H n Hn q Hq). Qed.
+  (forall t, In t ts -> node_exists g t = true -> In t (c_cleaned s')) /\
+  (dfs_inv g [] s -> dfs_inv g [] s').
 
 Lemma clean_targets_loop_post dry g fuel ts :
   forall s s', clean_targets_loop fuel dry g ts s = Some s' -> loop_post dry g ts s s'.
 Proof.
   induction ts as [|t ts IH]; intros s s' H; cbn [clean_targets_loop] in H.
-  - injection H as <-. split; [auto|]. split; [apply incl_refl|]. split; [auto|].
-    intro Hc. split; [exact Hc|]. intros q [t [[] _]].
+  - injection H as <-. split; [auto|]. split; [apply incl_refl|]. split; [apply incl_refl|].
+    split; [auto|]. split; [intros t []|auto].
   - destruct (node_exists g t) eqn:Hne.
     + destruct (do_clean_target fuel dry g t s) as [s1|] eqn:H1; [|discriminate].
-      apply do_clean_target_post in H1. destruct H1 as [Hi1 [Hr1 [Hcl1 [Hs1 Hc1]]]].
-      apply IH in H. destruct H as [Hi [Hr [Hs Hc]]].
-      split; [auto|]. split; [eapply incl_tran; eauto|]. split.
+      apply do_clean_target_post in H1. destruct H1 as [Hi1 [Hr1 [Hcl1 [Hs1 [Ht1 Hd1]]]]].
+      apply IH in H. destruct H as [Hi [Hr [Hcl [Hs [Hall Hd]]]]].
+      split; [auto|]. split; [eapply incl_tran; eauto|]. split; [eapply incl_tran; eauto|].
+      split; [|split; [|auto]].
       * intros q Hq. destruct (Hs q Hq) as [H|[t' [Ht' H]]].
         -- destruct (Hs1 q H) as [H'|H']; [left; exact H'|]. right. exists t. split; [left; reflexivity|]. auto.
         -- right. exists t'. split; [right; exact Ht' | exact H].
-      * intro Hc0. destruct (Hc1 Hc0) as [Hc1' Ht]. destruct (Hc Hc1') as [Hc2 Hall]. split; [exact Hc2|].
-        intros q [t' [[<-|Ht'] [Hn Hq]]].
-        -- apply Hr. apply (Hc1' t Ht q Hq).
-        -- apply Hall. exists t'. auto.
-    + apply IH in H. destruct H as [Hi [Hr [Hs Hc]]].
-      split; [intros d0 Hd; apply Hi; apply inv_set_status; exact Hd|].
-      split; [exact Hr|]. split.
+      * intros t' [<-|Ht'] Hn; [apply Hcl; exact Ht1 | apply Hall; assumption].
+    + apply IH in H. destruct H as [Hi [Hr [Hcl [Hs [Hall Hd]]]]].
+      split; [intros d0 Hinv; apply Hi; apply inv_set_status; exact Hinv|].
+      split; [exact Hr|]. split; [exact Hcl|]. split; [|split; [|exact Hd]].
       * intros q Hq. destruct (Hs q Hq) as [H|[t' [Ht' H]]]; [left; exact H|].
         right. exists t'. split; [right; exact Ht' | exact H].
-      * intro Hc0. destruct (Hc (closed_set_status g s Hc0)) as [Hc2 Hall]. split; [exact Hc2|].
-        intros q [t' [[<-|Ht'] [Hn Hq]]]; [congruence|]. apply Hall. exists t'. auto.
+      * intros t' [<-|Ht'] Hn; [congruence | apply Hall; assumption].
 Qed.
 
-Lemma closed_reset g d : closed g (reset d).
+Lemma dfs_inv_reset g d : dfs_inv g [] (reset d).
 Proof. intros n []. Qed.
 
 Lemma clean_targets_fuel_spec dry g d fuel ts r :
@@ -525,54 +552,54 @@ Lemma clean_targets_fuel_spec dry g d fuel ts r :
   (forall q, In q (c_removed r) <-> target_scope g ts q) /\ inv dry d r.
 Proof.
   unfold clean_targets_fuel. intro H. apply clean_targets_loop_post in H.
-  destruct H as [Hi [_ [Hs Hc]]]. split.
+  destruct H as [Hi [_ [_ [Hs [Hall Hd]]]]]. split.
   - intro q. split.
     + intro Hq. destruct (Hs q Hq) as [[]|H]; exact H.
-    + apply (Hc (closed_reset g d)).
+    + intros [t [Ht [Hn Hq]]].
+      apply (dfs_inv_closed g r (Hd (dfs_inv_reset g d)) t (Hall t Ht Hn) q Hq).
   - apply Hi. apply inv_reset.
 Qed.
 
-(* ---- termination on acyclic graphs ----------------------------------------------------------- *)
-Lemma clean_inputs_some (rec : path -> cl -> option cl) ins :
-  (forall i s, In i ins -> rec i s <> None) -> forall s, clean_inputs rec ins s <> None.
+(* ---- termination on EVERY graph -------------------------------------------------------------- *)
+(* every recursive call is on a node that was not yet in cleaned_ and is an input of some statement:
+   the nodes on the recursion stack are pairwise distinct input names (pigeonhole) *)
+Lemma clean_inputs_some (K : list path) (rec : path -> cl -> option cl) ins :
+  (forall i s, In i ins -> incl K (c_cleaned s) -> ~ In i (c_cleaned s) -> rec i s <> None) ->
+  (forall i s s', rec i s = Some s' -> incl (c_cleaned s) (c_cleaned s')) ->
+  forall s, incl K (c_cleaned s) -> clean_inputs rec ins s <> None.
 Proof.
-  induction ins as [|n ins IH]; intros Hrec s; cbn [clean_inputs]; [discriminate|].
-  destruct (mem_bytes n (c_cleaned s)).
-  - apply IH. intros i s0 Hi. apply Hrec. right. exact Hi.
-  - destruct (rec n s) as [s1|] eqn:H1; [|exfalso; exact (Hrec n s (or_introl eq_refl) H1)].
-    apply IH. intros i s0 Hi. apply Hrec. right. exact Hi.
+  induction ins as [|n ins IH]; intros Hrec Hmono s HK; cbn [clean_inputs]; [discriminate|].
+  assert (Hrec' : forall i s0, In i ins -> incl K (c_cleaned s0) -> ~ In i (c_cleaned s0) -> rec i s0 <> None)
+    by (intros i s0 Hi; apply Hrec; right; exact Hi).
+  destruct (mem_bytes n (c_cleaned s)) eqn:Hm; [apply IH; assumption|].
+  apply mem_bytes_false_iff in Hm.
+  destruct (rec n s) as [s1|] eqn:H1; [|exfalso; exact (Hrec n s (or_introl eq_refl) HK Hm H1)].
+  apply IH; [assumption | assumption |]. eapply incl_tran; [exact HK | exact (Hmono n s s1 H1)].
 Qed.
 
-(* the statements on the recursion stack; [above]: each of them has an input ranking at least t *)
-Definition above (g : graph) (rank : path -> nat) (stack : list edge) (t : path) : Prop :=
-  forall e', In e' stack -> exists n' i, in_edge g n' = Some e' /\ In i (e_ins e') /\ rank t <= rank i.
+Definition all_ins (g : graph) : list path := flat_map e_ins (g_edges g).
 
-Lemma do_clean_target_terminates dry g rank :
-  ranked g rank ->
+Lemma do_clean_target_terminates dry g :
   forall fuel stack t s,
-    NoDup stack -> incl stack (g_edges g) -> above g rank stack t ->
-    length (g_edges g) < fuel + length stack ->
+    NoDup stack -> incl stack (all_ins g) -> incl stack (t :: c_cleaned s) ->
+    length (all_ins g) < fuel + length stack ->
     do_clean_target fuel dry g t s <> None.
 Proof.
-  intros Hrk fuel. induction fuel as [|f IH]; intros stack t s Hnd Hincl Hab Hlen.
+  intro fuel. induction fuel as [|f IH]; intros stack t s Hnd Hincl Hcl Hlen.
   - exfalso. pose proof (NoDup_incl_length Hnd Hincl) as Hl. cbn [Nat.add] in Hlen. lia.
   - cbn [do_clean_target]. destruct (in_edge g t) as [e|] eqn:He; [|discriminate].
-    assert (Hnotin : ~ In e stack).
-    { intro Hin. destruct (Hab e Hin) as [n' [i [Hn' [Hi Hle]]]].
-      pose proof (Hrk t e i He Hi) as Hlt. lia. }
-    assert (Hrec : forall i s0, In i (e_ins e) -> do_clean_target f dry g i s0 <> None).
-    { intros i s0 Hi. apply (IH (e :: stack)).
-      - constructor; assumption.
-      - intros x [<-|Hx]; [apply (in_edge_In g t e He) | apply Hincl; exact Hx].
-      - intros e' [<-|He'].
-        + exists t, i. split; [exact He|]. split; [exact Hi | apply Nat.le_refl].
-        + destruct (Hab e' He') as [n' [i' [Hn' [Hi' Hle]]]]. exists n', i'. split; [exact Hn'|]. split; [exact Hi'|].
-          pose proof (Hrk t e i He Hi) as Hlt. lia.
-      - cbn [length]. lia. }
-    pose proof (clean_inputs_some (do_clean_target f dry g) (e_ins e) Hrec
-                  (if e_phony e then s else clean_edge dry e s)) as Hsome.
-    destruct (clean_inputs (do_clean_target f dry g) (e_ins e) (if e_phony e then s else clean_edge dry e s));
-      [discriminate | exfalso; apply Hsome; reflexivity].
+    set (s1 := if e_phony e then mark_cleaned t s else clean_edge dry e (mark_cleaned t s)).
+    assert (Hc1 : c_cleaned s1 = c_cleaned (mark_cleaned t s)).
+    { unfold s1. destruct (e_phony e); [reflexivity | apply (adds_clean_edge dry e (mark_cleaned t s))]. }
+    apply (clean_inputs_some stack).
+    + intros i s0 Hi HK Hni. apply (IH (i :: stack)).
+      * constructor; [intro Hin; apply Hni; apply HK; exact Hin | exact Hnd].
+      * intros x [<-|Hx]; [|apply Hincl; exact Hx].
+        unfold all_ins. apply in_flat_map. exists e. split; [apply (in_edge_In g t e He) | exact Hi].
+      * intros x [<-|Hx]; [left; reflexivity | right; apply HK; exact Hx].
+      * cbn [length]. lia.
+    + intros i s0 s0' H0. apply (do_clean_target_post dry g f i s0 s0' H0).
+    + rewrite Hc1. intros x Hx. apply mark_cleaned_In. destruct (Hcl x Hx) as [<-|H]; auto.
 Qed.
 
 Lemma clean_targets_loop_terminates dry g fuel ts :
@@ -584,20 +611,23 @@ Proof.
   destruct (do_clean_target fuel dry g t s) as [s1|] eqn:H1; [apply IH | exfalso; exact (Hrec t s H1)].
 Qed.
 
-(* default_fuel is enough on every acyclic graph; more fuel never hurts *)
+(* default_fuel is enough on every graph, cyclic or not; more fuel never hurts *)
 Theorem clean_targets_fuel_sufficient dry g d ts fuel :
-  acyclic g -> length (g_edges g) < fuel -> clean_targets_fuel fuel dry g d ts <> None.
+  length (flat_map e_ins (g_edges g)) < fuel -> clean_targets_fuel fuel dry g d ts <> None.
 Proof.
-  intros [rank Hrk] Hf. unfold clean_targets_fuel. apply clean_targets_loop_terminates.
-  intros t s. apply (do_clean_target_terminates dry g rank Hrk fuel [] t s).
+  intros Hf. unfold clean_targets_fuel. apply clean_targets_loop_terminates.
+  intros t s. apply (do_clean_target_terminates dry g fuel [] t s).
   - constructor.
   - intros x [].
-  - intros e' [].
-  - cbn [length]. lia.
+  - intros x [].
+  - cbn [length]. unfold all_ins. lia.
 Qed.
 
-Corollary clean_targets_total dry g d ts : acyclic g -> clean_targets dry g d ts <> None.
-Proof. intro H. unfold clean_targets. apply clean_targets_fuel_sufficient; [exact H | unfold default_fuel; lia]. Qed.
+Corollary clean_targets_total dry g d ts : exists r, clean_targets dry g d ts = Some r.
+Proof.
+  destruct (clean_targets dry g d ts) as [r|] eqn:H; [exists r; reflexivity|]. exfalso.
+  unfold clean_targets in H. revert H. apply clean_targets_fuel_sufficient. unfold default_fuel. lia.
+Qed.
 
 (* the result does not depend on the fuel once there is enough *)
 Lemma clean_inputs_ext (r1 r2 : path -> cl -> option cl) ins :
@@ -615,24 +645,7 @@ Proof.
   induction f1 as [|f1 IH]; intros f2 t s s' Hle H; [discriminate|].
   destruct f2 as [|f2]; [lia|]. cbn [do_clean_target] in *.
   destruct (in_edge g t) as [e|]; [|exact H].
-  destruct (clean_inputs (do_clean_target f1 dry g) (e_ins e) (if e_phony e then s else clean_edge dry e s)) as [s2|] eqn:E;
-    [|discriminate].
-  rewrite (clean_inputs_ext _ (do_clean_target f2 dry g) (e_ins e) (fun n s0 s0' => IH f2 n s0 s0' ltac:(lia)) _ _ E).
-  exact H.
-Qed.
-
-(* on a cycle through the target itself the walk never finishes, whatever the fuel: the model's
-   counterpart of the unbounded C++ recursion (first input = the target again, e.g. `build a: r a`) *)
-Lemma self_loop_never_finishes dry g t e ins :
-  in_edge g t = Some e -> e_ins e = t :: ins ->
-  forall fuel s, ~ In t (c_cleaned s) -> do_clean_target fuel dry g t s = None.
-Proof.
-  intros He Hins fuel. induction fuel as [|f IH]; intros s Hnc; cbn [do_clean_target]; [reflexivity|].
-  rewrite He, Hins. cbn [clean_inputs].
-  assert (Hc : c_cleaned (if e_phony e then s else clean_edge dry e s) = c_cleaned s).
-  { destruct (e_phony e); [reflexivity|]. apply (adds_clean_edge dry e s). }
-  rewrite Hc. apply mem_bytes_false_iff in Hnc. rewrite Hnc.
-  rewrite IH; [reflexivity|]. rewrite Hc. apply mem_bytes_false_iff. exact Hnc.
+  apply (clean_inputs_ext _ (do_clean_target f2 dry g) (e_ins e) (fun n s0 s0' => IH f2 n s0 s0' ltac:(lia)) _ _ H).
 Qed.
 
 (* ================================================================================================ *)
@@ -798,9 +811,9 @@ Proof. apply complete_of_facts, clean_dead_facts. Qed.
 (* the rule scope needs statements with at least one output for their depfile/rspfile (the parser
    guarantees it): RemoveEdgeFiles sits inside the loop over the outputs *)
 Lemma rule_scope_nonempty g rs r e p :
-  outputs_nonempty g -> In r rs -> In r (g_rules g) -> In e (g_edges g) -> e_rule e = r ->
+  outputs_nonempty g -> In r rs -> In r (g_rules g) -> In e (g_edges g) -> e_phony e = false -> e_rule e = r ->
   In p (edge_paths e) -> rule_scope g rs p.
-Proof. intros Hne Hr Hk He Hru Hp. exists r, e. repeat split; auto. Qed.
+Proof. intros Hne Hr Hk He Hph Hru Hp. exists r, e. repeat split; auto. Qed.
 
 (* ---- C18_no_source_no_phony ------------------------------------------------------------------- *)
 Lemma node_exists_output g e q : In e (g_edges g) -> In q (e_outs e) -> node_exists g q = true.
@@ -841,14 +854,13 @@ Proof.
   exact (edge_paths_safe g e p Hu Ha (proj1 (in_edge_In g n e He)) Hph Hp).
 Qed.
 
-(* by rule: true when no named rule is used by a phony statement (`-r phony` is the exception) *)
+(* by rule: DoCleanRule skips phony statements, so the same holds unconditionally (`-r phony` removes nothing) *)
 Theorem C18_no_source_no_phony_rules dry g d rs p :
   unique_producer g -> aux_paths_disjoint g ->
-  (forall e, In e (g_edges g) -> In (e_rule e) rs -> e_phony e = false) ->
   In p (c_report (clean_rules dry g d rs)) -> ~ is_source g p /\ ~ is_phony_output g p.
 Proof.
-  intros Hu Ha Hnp H. apply C18_scope_rules in H. destruct H as [r [e [Hr [_ [He [Hru [_ Hp]]]]]]].
-  apply (edge_paths_safe g e p Hu Ha He); [|exact Hp]. apply Hnp; [exact He | rewrite Hru; exact Hr].
+  intros Hu Ha H. apply C18_scope_rules in H. destruct H as [r [e [_ [_ [He [Hph [_ [_ Hp]]]]]]]].
+  exact (edge_paths_safe g e p Hu Ha He Hph Hp).
 Qed.
 
 (* cleandead removes exactly unreferenced names: never a node that has a producer (so no phony
@@ -1040,24 +1052,14 @@ Qed.
 Lemma ex_wf : wf_graph_b Ex.g = true.
 Proof. vm_compute. reflexivity. Qed.
 
-(* the ranking that makes Ex.g acyclic: the single byte of the name, shifted for the phony "all" *)
-Lemma ex_acyclic : acyclic Ex.g.
-Proof.
-  exists (fun p => match p with
-                   | [1%N] => 1 | [2%N] => 2 | [12%N] => 2 | [4%N] => 3 | [6%N] => 4 | _ => 0 end).
-  intros n e i He Hi. destruct (in_edge_In _ _ _ He) as [Hin Hn].
-  cbn in Hin. destruct Hin as [<-|[<-|[<-|[<-|[<-|[]]]]]]; cbn in Hn, Hi;
-    repeat (destruct Hn as [<-|Hn]; [repeat (destruct Hi as [<-|Hi]; [cbn; lia|]); destruct Hi|]); destruct Hn.
-Qed.
-
 (* by-target cleaning has no generator test: `-t clean all` (no -g) deletes the generator output 1 *)
 Theorem C18_generator_by_target_refuted :
   exists g d ts r p,
-    wf_graph_b g = true /\ acyclic g /\
+    wf_graph_b g = true /\
     clean_targets false g d ts = Some r /\ is_generator_output g p /\ In p (c_report r).
 Proof.
   exists Ex.g, Ex.d, [Ex.p 6], (match clean_targets false Ex.g Ex.d [Ex.p 6] with Some r => r | None => reset Ex.d end), (Ex.p 1).
-  split; [exact ex_wf|]. split; [exact ex_acyclic|]. split; [vm_compute; reflexivity|]. split.
+  split; [exact ex_wf|]. split; [vm_compute; reflexivity|]. split.
   - exists Ex.e_gen. split; [left; reflexivity|]. split; [reflexivity | left; reflexivity].
   - vm_compute. auto 10.
 Qed.
@@ -1072,16 +1074,10 @@ Proof.
   - vm_compute. auto.
 Qed.
 
-(* `-t clean -r phony`: the outputs of phony statements are removed — among them a source file that
-   a manifest declares with `build src.h: phony` *)
-Theorem C18_phony_by_rule_refuted :
-  exists g d rs p,
-    wf_graph_b g = true /\ is_phony_output g p /\ d p = FFile /\ In p (c_report (clean_rules false g d rs)).
-Proof.
-  exists Ex.g, Ex.d, [0%N], (Ex.p 5). split; [exact ex_wf|]. split.
-  - exists Ex.e_src. split; [right; right; right; left; reflexivity|]. split; [reflexivity | left; reflexivity].
-  - split; vm_compute; auto.
-Qed.
+(* `-t clean -r phony` removes nothing: the source file 5 declared by `build 5: phony` survives *)
+Lemma ex_rule_phony_removes_nothing :
+  c_report (clean_rules false Ex.g Ex.d [0%N]) = [] /\ c_disk (clean_rules false Ex.g Ex.d [0%N]) (Ex.p 5) = FFile.
+Proof. split; vm_compute; reflexivity. Qed.
 
 (* without aux_paths_disjoint the no-source claim is false: a depfile binding naming a source *)
 Theorem C18_aux_overlap_removes_source :
